@@ -1630,6 +1630,11 @@ func (pc *PartitionContext) removeAllocation(release *si.AllocationRelease) ([]*
 	}
 
 	if release.TerminationType != si.TerminationType_TIMEOUT {
+		// the real ask of a replacement that is in flight is cancelled: undo the replacement, the placeholder whose
+		// release was already requested from the RM is simply removed when that release is confirmed
+		if ask := app.GetAllocationAsk(allocationKey); allocationKey != "" && ask != nil && !ask.IsPlaceholder() && ask.IsAllocated() && ask.HasRelease() {
+			pc.reverseInFlightReplacement(app, ask.GetRelease())
+		}
 		// handle ask releases as well
 		_ = app.RemoveAllocationAsk(allocationKey)
 	}
